@@ -3,6 +3,7 @@ Model driver: one S-expression request per input line, one answer per output lin
 Runs the *executable definitions the theorems are about* (PyOak/Model/*).
 -/
 import PyOak.Handle.Traverse
+import PyOak.Handle.XPath
 open PyOak PyOak.Sexp
 
 def dispatch (s : Sexp) : Sexp :=
@@ -10,6 +11,8 @@ def dispatch (s : Sexp) : Sexp :=
   | .list (.atom cmd :: args) =>
     let r : Option Sexp :=
       if cmd == "dfs" || cmd == "bfs" || cmd == "gather" || cmd == "edges" then handleTraverse cmd args
+      else if cmd == "tree-queries" then handleTreeQ args
+      else if cmd == "xpath" then handleXPath args
       else none
     match r with
     | some x => x
